@@ -17,11 +17,14 @@ PROP = {
         {"target": "c08_handles_rc", "sub": "pool", "env": _ENV,
          "quick": {"cases": 15000, "max_size": 120, "workers": 3},
          "thorough": {"cases": 300000, "max_size": 250, "workers": 3}},
+        {"target": "c08_handles_rc", "sub": "pool_tree", "env": _ENV,
+         "quick": {"cases": 25000, "max_size": 100, "workers": 2},
+         "thorough": {"cases": 300000, "max_size": 200, "workers": 3}},
         {"target": "c08_handles_rc", "sub": "fd", "env": _ENV,
-         "quick": {"cases": 20000, "max_size": 150, "workers": 3},
+         "quick": {"cases": 28000, "max_size": 150, "workers": 2},
          "thorough": {"cases": 300000, "max_size": 300, "workers": 3}},
         {"target": "c08_handles_rc", "sub": "lifetime_tag", "env": _ENV,
-         "quick": {"cases": 40000, "max_size": 150, "workers": 3},
+         "quick": {"cases": 56000, "max_size": 150, "workers": 2},
          "thorough": {"cases": 600000, "max_size": 300, "workers": 3}},
         {"target": "c08_handles_fuzz", "sub": "cabinet", "env": _ENV,
          "quick": {"runs": 120000, "max_len": 600, "workers": 1, "unit_timeout": 60},
@@ -29,6 +32,9 @@ PROP = {
         {"target": "c08_handles_fuzz", "sub": "pool", "env": _ENV,
          "quick": {"runs": 40000, "max_len": 400, "workers": 1, "unit_timeout": 60},
          "thorough": {"runs": 100000, "max_len": 1000, "workers": 1, "unit_timeout": 60}},
+        {"target": "c08_handles_fuzz", "sub": "pool_tree", "env": _ENV,
+         "quick": {"runs": 80000, "max_len": 300, "workers": 1, "unit_timeout": 60},
+         "thorough": {"runs": 300000, "max_len": 800, "workers": 1, "unit_timeout": 60}},
         {"target": "c08_handles_fuzz", "sub": "fd", "env": _ENV,
          "quick": {"runs": 100000, "max_len": 500, "workers": 1, "unit_timeout": 60},
          "thorough": {"runs": 600000, "max_len": 1200, "workers": 1, "unit_timeout": 60}},
@@ -41,14 +47,14 @@ PROP = {
         "the cabinet does not own the stored objects: the harness releases them when an entry is freed or cleared, as the in-tree callers do",
         "no alloc() inside Cabinet::foreach (only removal is documented as allowed during traversal)",
         "id wrap-around of the cabinet (2^64 allocations) is out of reach and not exercised",
-        "pooled probe types need no more than malloc alignment; constructors do not throw",
+        "pooled probe types need no more than malloc alignment; a constructor that throws has released what it allocated itself (pool_tree)",
         "a close function is never invoked re-entrantly on the handle being closed; calls of the close function with a negative argument are ignored",
         "ObjectPool statistics are compared with the documented retention rule (a freed block is parked while fewer than the limit are parked)",
     ],
 }
 META = {
     "design_ref": "DESIGN.md section 4, C08",
-    "technique": "model-based stateful PBT (rapidcheck) + coverage-guided fuzzing (libFuzzer) of the same op-streams: Cabinet vs. a map of every token ever issued; ObjectPool vs. ctor/dtor counters, id patterns, address ranges and a retention model; Fd vs. reference-counted cells with a recording close function and real descriptors; LifetimeTag vs. tag-existence model; all under ASan/UBSan with pool poisoning (H3) and a per-case heap-balance check",
+    "technique": "model-based stateful PBT (rapidcheck) + coverage-guided fuzzing (libFuzzer) of the same op-streams: Cabinet vs. a map of every token ever issued; ObjectPool vs. ctor/dtor counters, id patterns, address ranges and a retention model, also used re-entrantly by tree nodes whose constructors allocate / destructors free from the same pool and whose constructors may throw; Fd vs. reference-counted cells with a recording close function and real descriptors; LifetimeTag vs. tag-existence model; all under ASan/UBSan with pool poisoning (H3) and a per-case heap-balance check",
     "level_text": "Generated histories of cabinet operations (tokens drawn from all tokens ever returned: live, freed, pre-clear, default, forged), pool alloc/free with retention limits {0,1,2,64,unbounded} and four object sizes, handle operations on up to 6 Fd variables (copy/move/assign/self-assign/swap/reset/close/destroy/temporary chains) and tag/watcher operations are compared step by step with reference models; every step checks size, resolution of stale tokens, address disjointness and patterns of live pooled objects, constructor/destructor balance, the exact set of descriptors closed by the step, and get()/isNull(). Exploration only: no counter-example among N generated histories.",
-    "level_note": "Trusted: the reference models, ASan/UBSan, __sanitizer_get_current_allocated_bytes for the per-case heap balance, fcntl(F_GETFD) as the open/closed probe for real descriptors. Not covered: multi-threaded use, cabinet id wrap-around, over-aligned or throwing pooled types, re-entrant close functions.",
+    "level_note": "Trusted: the reference models, ASan/UBSan, __sanitizer_get_current_allocated_bytes for the per-case heap balance, fcntl(F_GETFD) as the open/closed probe for real descriptors. Not covered: multi-threaded use, cabinet id wrap-around, over-aligned pooled types, re-entrant close functions.",
 }
